@@ -655,6 +655,20 @@ def r_find(ck: Checker) -> None:
     (ck.holds if ok else ck.violation)("R-XP-FIND", c, c.node, what, **({} if ok else {"construct": "ASTXpath.__init__: relative path normalisation not recognised"}))
 
 
+def r_xp_compile_each(ck: Checker, rule: str = "R-XP-FIND") -> None:
+    """ASTXpath instances are cached per text (__new__), __init__ runs again on every construction: it must compile again,
+    otherwise the classes named in the text stay resolved as they were when the text was first seen."""
+    f = ck.repo.func(XP, "ASTXpath.__init__")
+    what = "ASTXpath.__init__ parses the text on every call (a cached instance does not keep an older resolution of the class names)"
+    leaves = decision_tree(strip_docstring(f.node.body), try_as_body=True, resolve=True)
+    lazy = [lf for lf in leaves if lf.outcome in ("fall", "return") and not any(
+        isinstance(c, ast.Call) and isinstance(c.func, ast.Attribute) and c.func.attr == "parse" for st in lf.stmts for c in ast.walk(st))]
+    if lazy:
+        ck.violation(rule, f, f.node, what, construct=f"ASTXpath.__init__: returns without parsing when {lazy[0].assign}")
+    elif leaves:
+        ck.holds(rule, f, f.node, what, evaluations=len(leaves))
+
+
 def run(ck: Checker) -> None:
     ck.explanation = (
         "Grammar <-> transformer agreement (the grammar literal is loaded with lark's grammar loader; a variadic kept terminal requires a "
@@ -672,6 +686,7 @@ def run(ck: Checker) -> None:
     ck.guard("R-XP-ROOT", lambda: r_root(ck))
     ck.guard("R-XP-ANYWHERE", lambda: r_anywhere(ck))
     ck.guard("R-XP-FIND", lambda: r_find(ck))
+    ck.guard("R-XP-FIND", lambda: r_xp_compile_each(ck))
     ck.guard("R-XP-ELEMENTS", lambda: r_xp_elements(ck))
     ck.guard("R-XP-ONCE", lambda: r_xp_once(ck))
     ck.require_count("R-XP-SHARED", 3)
